@@ -222,6 +222,11 @@ var templates = []struct {
 	{"run-error", "probe(\"start\")\nload_json(\"{bad\")\nprobe(\"never\")"},
 	{"run-error", "url_decode(bad)\nadd_key(after, 1)"},
 	{"ok", "x = 0\nfor ;; {\n x = x + 1\n probe(\"x\", x)\n if x >= 4 { break }\n continue\n}\nprobe(\"done\", x)"},
+	// a run that leaves names behind when it ends abnormally inside a block, and runs that read such names unassigned
+	{"run-error", "v = 1\nw = \"top\"\na = [1]\nb = {\"k\": 1}\nc = 2.5\nk1 = true\nif true {\n i = 7\n x = 1 + \"a\"\n}"},
+	{"exit", "v = 2\nw = \"top2\"\na = \"s\"\nfor i in [1, 2] {\n x = i\n if i == 2 { exit() }\n}"},
+	{"ok", "probe(\"names\", v, w, x, i, a, b, c, k1, j, l, m)"},
+	{"ok", "if v == nil { probe(\"v is nil\") } else { probe(\"v has a value\", v) }\nfor q in [1] { probe(\"inner\", w, x) }"},
 	// the same grok expression text under different alias definitions (and under none: see badLoads)
 	{"ok", "add_pattern(\"tok\", \"[a-z]+\")\nok = grok(_, \"%{tok:val}\")\nprobe(\"tok\", ok, val)"},
 	{"ok", "add_pattern(\"tok\", \"\\\\d+\")\nok = grok(_, \"%{tok:val}\")\nprobe(\"tok\", ok, val)"},
@@ -266,6 +271,12 @@ func genPool(t *rapid.T, n int) []*Op {
 			// the callee's script set also loaded with the callee as the root (run directly after / before the caller ran it)
 			pool = append(pool, &Op{Kind: "run", Scripts: map[string]string{"main.p": "probe(\"caller-start\")\nv = 1\nuse(\"c.p\")\nprobe(\"caller-end\", v)\nadd_key(done, true)", "c.p": tp.src}, Root: "c.p", Tags: tags, Fields: fields, Class: tp.class})
 		}
+	}
+	for _, txt := range badParses {
+		pool = append(pool, &Op{Kind: "parse", Text: txt, Class: "parse-error"})
+	}
+	for _, txt := range []string{"x = [1, 2][0]\ny = {\"a\": (1 + 2)}", "f(a, b)\nif a { b = \"s\" }", "for i = 0; i < 3; i = i + 1 {\n  g(i)\n}\n"} {
+		pool = append(pool, &Op{Kind: "parse", Text: txt, Class: "ok"})
 	}
 	for _, src := range badLoads {
 		pool = append(pool, &Op{Kind: "load", Scripts: map[string]string{"main.p": src, "other.p": "add_key(o, 1)"}, Root: "main.p", Class: "load-error"})
@@ -391,10 +402,36 @@ func TestHistories(t *testing.T) {
 			rk.Fail(t, "histories", replay{History: []*Op{pool[i]}, At: 0, Want: refs[i], Got: r}, "operation gives a different result in this process than in a fresh process\nfresh: %s\nhere:  %s", clip(refs[i]), clip(r))
 		}
 	}
+	byCat := map[string][]int{}
+	for i, o := range pool {
+		k := o.Kind + "/" + o.Class
+		if o.Kind == "run" && o.Class != "generated" && o.Class != "cancelled" {
+			k = "run/template"
+			if _, uses := o.Scripts["c.p"]; uses {
+				k = "run/template-through-use"
+			}
+		}
+		byCat[k] = append(byCat[k], i)
+	}
+	var catNames []string
+	for k := range byCat {
+		catNames = append(catNames, k)
+	}
+	sort.Strings(catNames)
+	var cats [][]int
+	for _, k := range catNames {
+		cats = append(cats, byCat[k])
+		evid.Extra("pool/"+k, len(byCat[k]))
+	}
 	maxLen := evid.Scale(60, 400)
 	rk.Check(t, "histories", 2, evid.Scale(400, 1500), func(t *rapid.T) {
 		n := rapid.IntRange(2, maxLen).Draw(t, "len")
-		idx := rapid.SliceOfN(rapid.IntRange(0, len(pool)-1), n, n).Draw(t, "history")
+		// category first, then a member: the fixed templates do not crowd out parses and generated programs
+		idx := make([]int, n)
+		for k := range idx {
+			cat := cats[rapid.IntRange(0, len(cats)-1).Draw(t, "category")]
+			idx[k] = cat[rapid.IntRange(0, len(cat)-1).Draw(t, "member")]
+		}
 		st := newState()
 		prevClass := "none"
 		for pos, i := range idx {
